@@ -20,6 +20,11 @@ CHECKS = {
           "Tens of thousands of generated (matcher, configuration, input) cases; each compares the complete event stream and final byte count of search_slice with 4-8 other strategies: fragmented readers with hook-set buffer capacities down to 0/1 byte, the smallest sufficient heap limit found by bisection, search_path with and without mmap, inputs crossing the 64 KiB default buffer, and all of it again with multi_line(true) requested. Random exploration with shrinking.",
           "Needs the verif-hooks capacity hook to make the buffer roll on small inputs; Interrupted reads are exercised in C16, not here.",
           "DESIGN.md section 3 C02"),
+  "C13": (True, "exploration",
+          "proptest-driven generated multi-line patterns and inputs; oracle = matches enumerated with Matcher::find_at over the whole input mapped to lines + LineModel",
+          "Tens of thousands of generated -U patterns (templates around \\n plus grammar-generated ones forced to cross line boundaries) on inputs assembled from strings of the pattern's language; the delivered match blocks, context, numbering and offsets are compared with an independent enumeration of the matches over the whole input, with and without -v, context, CRLF/NUL, under slice, reader, file and mmap strategies. Random exploration with shrinking.",
+          "Trusts RegexMatcher::find_at on the whole input; where ripgrep's advance rule and the regex crate's iterator rule give different line sets either is accepted; one known finding (inverted mode restarts at the line block end) is tolerated by exact signature.",
+          "DESIGN.md section 3 C13"),
   "C16": (True, "fault_enumeration",
           "fault enumeration over one generated run: sink stop and sink error at every event index, reader error and Interrupted at every read index; oracle = prefix of the uninterrupted event log",
           "For each of tens of thousands of generated searches every event index (begin, match, context, break, binary notice) is used once as a stop point and once as an error point, and every read index once as an I/O error and once as Interrupted; delivered events must be exactly the prefix, finish exactly once after a stop and never after an error, the error returned. Complete over the fault points of each explored run; runs themselves are sampled.",
